@@ -56,7 +56,8 @@ func parseRFC3339Timestamp(timeStr string, timezoneCache map[string]*time.Locati
 			}
 			tzName, tzOffset := z.Zone()
 			location = time.FixedZone(tzName, tzOffset)
-			timezoneCache[tzStr] = location
+			// copy the key, which is part of a field value in the record's backing buffer and would change when the buffer is reused
+			timezoneCache[strings.Clone(tzStr)] = location
 		}
 	} else {
 		location = time.Local
